@@ -32,9 +32,16 @@ def parser_expr(f):
     """E of the parser object a reader function applies to its input"""
     R = resolver(f)
     for c in f.calls:
-        if c.dst is not None and c.dst["local"] == 0 and not c.dst["proj"]:
+        if c.dst is not None and c.dst["local"] == 0 and not c.dst["proj"] and c.name not in ("from_residual", "from_output"):
             # _0 = <parser>(input)  — the callee receives the parser as first argument
             if c.args:
+                return peel(R.operand(c.args[0]), calls=None)
+    # `let (rest, out) = <parser>(input)?; Ok((rest, build(out)))`: the parser is applied to the function's
+    # input by a call whose result goes through `?` (what nom's `map` does, written out)
+    for c in f.calls:
+        if c.name in ("call_mut", "call", "call_once", "parse") and len(c.args) >= 2:
+            inp = R.operand(c.args[1])
+            if any(x.k == "arg" and x.a == 1 for x in inp.walk()):
                 return peel(R.operand(c.args[0]), calls=None)
     return None
 
